@@ -74,6 +74,7 @@ def generate(rs: int, tier: str, index: int) -> dict:
         step["protocol"] = ch.below(6)
         step["via"] = ch.choice(["dumps", "stream", "oob" if step["protocol"] == 5 else "dumps"])
         step["fault"] = ch.choice([None, None, "write", "read"]) if step["via"] == "stream" else None
+        step["update"] = ch.chance(0.3)
     elif kind == "copy":
         step["how"] = ch.choice(["copy", "deepcopy", "method"])
     elif kind == "text":
@@ -211,6 +212,19 @@ class Runner:
         msg = self.same_poly(p, q)
         if msg:
             self.violate("pickle-roundtrip", "pickle", sid, f"protocol {proto} via {via} view={step['view']}: {msg}", where)
+        if step.get("update") and msg is None and p.size:
+            # history on one object: pickle, overwrite the coefficients in place, pickle again
+            vals = p.values
+            for key in p.keys:
+                vals[key] = vals[key] + 1
+            self.bump("probe:repickle_after_inplace_update")
+            try:
+                q2 = pickle.loads(pickle.dumps(p, protocol=proto))
+                msg2 = self.same_poly(p, q2)
+            except Exception as exc:  # noqa: BLE001
+                msg2 = f"{type(exc).__name__}: {exc}"
+            if msg2:
+                self.violate("pickle-roundtrip", "pickle", sid, f"protocol {proto}: after the object was updated in place a second pickle gives: {msg2}", dict(where, history="updated-in-place"))
         self.events.append(["pickle", proto, via, model.poly_fingerprint(q) if msg is None else msg])
 
     def do_copy(self, step: dict, p: Any) -> None:
